@@ -257,4 +257,119 @@ def walk (a : St) : List Note → Option St
   | [] => some a
   | n :: r => if n.prev = a ∧ legal n.prev n.to = true then walk n.to r else none
 
+/-! ## Several breaker objects: rule reloads
+
+`circuitbreaker.LoadRules` with a tuned rule replaces the resource's breaker by a **fresh, Closed** object
+(`BuildResourceCircuitBreaker`); when the new rule is stat-reusable the new object shares the *statistic* of the old
+one, nothing else; an equal rule keeps the old object.  Calls look the breaker up when they start
+(`getBreakersOfResource` in `Slot.Check` / `MetricStatSlot.OnCompleted`), so a call that is under way when the rule
+is reloaded keeps acting on the retired object.  In the model every object is a `Conf` of its own (its words, its
+monitors, the calls bound to it — each call is a one-call thread of that object); objects of the same `grp` share
+the statistic (`sync` copies the counters), all objects share the clock. -/
+
+structure Obj where
+  cfg : Cfg
+  grp : Nat          -- identity of the statistic (leap array) the object uses
+  rid : Nat          -- identity of the rule it was built from (two rules that are `isEqualsTo` each other share it)
+  conf : Conf
+
+structure World where
+  objs : List Obj := []
+  live : Nat := 0     -- index of the object new calls are bound to
+
+def Obj.setStat (o : Obj) (b t : Nat) : Obj :=
+  { o with conf := { o.conf with sh := { o.conf.sh with bad := b, total := t } } }
+
+/-- object `k` has just written the statistic: every object sharing it sees the same counters -/
+def World.sync (w : World) (k : Nat) : World :=
+  match w.objs[k]? with
+  | none => w
+  | some o =>
+    { w with objs := w.objs.map fun p => if p.grp = o.grp then p.setStat o.conf.sh.bad o.conf.sh.total else p }
+
+def World.tick (w : World) (ms : Nat) : World :=
+  { w with objs := w.objs.map fun o => { o with conf := o.conf.tick ms } }
+
+/-- a call starts: it is bound to the live object, as a new (one-call) thread of that object;
+    returns the handle (object, thread) -/
+def World.bind (w : World) (c : Call) : World × Nat × Nat :=
+  match w.objs[w.live]? with
+  | none => (w, 0, 0)
+  | some o =>
+    let o' : Obj := { o with conf := ⟨(begin o.cfg o.conf.sh [] [c]).1, o.conf.th ++ [(begin o.cfg o.conf.sh [] [c]).2]⟩ }
+    ((World.mk (w.objs.set w.live o') w.live).sync w.live, w.live, o.conf.th.length)
+
+/-- one step of the call `(k, j)` -/
+def World.step (w : World) (k j : Nat) : World :=
+  match w.objs[k]? with
+  | none => w
+  | some o => (World.mk (w.objs.set k { o with conf := o.conf.sched o.cfg j }) w.live).sync k
+
+/-- a rule (re)load: `equal` (the old breaker's rule `isEqualsTo` the new one) keeps the object; otherwise a fresh
+    Closed object that shares only the statistic and the clock with the old one becomes the live one -/
+def World.reload (w : World) (cfg' : Cfg) (rid : Nat) (equal : Bool) : World :=
+  if equal then w else
+  match w.objs[w.live]? with
+  | none => { objs := w.objs ++ [⟨cfg', w.objs.length, rid, ⟨{}, []⟩⟩], live := w.objs.length }
+  | some o =>
+    { objs := w.objs ++ [⟨cfg', o.grp, rid, (Conf.mk ({ bad := o.conf.sh.bad, total := o.conf.sh.total } : Sh) []).tick o.conf.sh.clock⟩],
+      live := w.objs.length }
+
+/-- what a thread of the harness does, one after the other -/
+inductive WCall
+  | call (c : Call)
+  | reload (cfg : Cfg) (rid : Nat)     -- LoadRules with the rule `rid` (one more yield point of the harness: `cb.x.reload`)
+
+/-- a thread of the harness: the call under way (bound to an object when it started), or parked before a reload -/
+structure WT where
+  cur : Option (Nat × Nat) := none
+  atReload : Option (Cfg × Nat) := none
+  todo : List WCall := []
+  res : List Bool := []
+
+/-- move on to the next item of the program: a call is looked up (bound to the live object) and runs its prelude -/
+def advance (w : World) (t : WT) : World × WT :=
+  match t.todo with
+  | [] => (w, { t with cur := none, atReload := none })
+  | .call c :: r => ((w.bind c).1, { t with cur := some ((w.bind c).2.1, (w.bind c).2.2), atReload := none, todo := r })
+  | .reload cfg rid :: r => (w, { t with cur := none, atReload := some (cfg, rid), todo := r })
+
+def World.liveRid (w : World) : Option Nat := (w.objs[w.live]?).map (·.rid)
+
+/-- one schedule entry for a harness thread -/
+def WT.step (w : World) (t : WT) : World × WT :=
+  match t.atReload with
+  | some (cfg, rid) => advance (w.reload cfg rid (w.liveRid == some rid)) t
+  | none =>
+    match t.cur with
+    | none => (w, t)
+    | some (k, j) =>
+      match ((w.step k j).objs[k]?).bind (fun o => o.conf.th[j]?) with
+      | some th => if th.pc = .done then advance (w.step k j) { t with res := t.res ++ th.res } else (w.step k j, t)
+      | none => (w.step k j, t)
+
+structure WConf where
+  w : World := {}
+  ths : List WT := []
+
+def WConf.sched (c : WConf) (i : Nat) : WConf :=
+  match c.ths[i]? with
+  | none => c
+  | some t => { w := (t.step c.w).1, ths := c.ths.set i (t.step c.w).2 }
+
+def WConf.exec (c : WConf) : Ent → WConf
+  | .t i => c.sched i
+  | .tick ms => { c with w := c.w.tick ms }
+
+def wrun (c : WConf) : List Ent → WConf
+  | [] => c
+  | e :: r => wrun (c.exec e) r
+
+/-- start a batch of harness threads, in thread-id order -/
+def wstart (w : World) : List (List WCall) → World × List WT
+  | [] => (w, [])
+  | p :: ps =>
+      let r := advance w { todo := p }
+      ((wstart r.1 ps).1, r.2 :: (wstart r.1 ps).2)
+
 end Sentinel.BreakerRace
